@@ -140,6 +140,10 @@ CANARIES = [
     ('spill-skips-some-children', 'C05', 'src/bucket.rs', '            let bucket_meta = b.spill(tx_freelist)?;\n            // Store updated bucket metadata in a map since self is borrowed\n            bucket_metas.insert(key.clone(), bucket_meta);', '            if b.meta.next_int % 2 == 1 { continue; }\n            let bucket_meta = b.spill(tx_freelist)?;\n            bucket_metas.insert(key.clone(), bucket_meta);'),
     ('merge-branches-unsorted', 'C05', 'src/node.rs', '                b1.append(b2);\n                b1.sort_unstable_by_key(|b| b.key.clone());', '                b1.append(b2);'),
     ('merge-loses-other-node', 'C05', 'src/node.rs', '                l1.append(l2);\n', '                l2.clear();\n'),
+    ('overlay-ignores-nodes', 'C07', 'src/bucket.rs', '                if let Some(node_id) = self.page_node_ids.get(&page) {\n                    PageNode::Node(self.nodes[*node_id as usize].clone())', '                if let Some(node_id) = self.page_node_ids.get(&page).filter(|i| **i % 2 == 0) {\n                    PageNode::Node(self.nodes[*node_id as usize].clone())'),
+    ('overlay-wrong-node', 'C07', 'src/bucket.rs', '                    PageNode::Node(self.nodes[*node_id as usize].clone())\n                } else {', '                    PageNode::Node(self.nodes[(*node_id as usize).saturating_sub(1)].clone())\n                } else {'),
+    ('overlay-node-id-as-page', 'C07', 'src/bucket.rs', '            PageNodeID::Node(node) => PageNode::Node(self.nodes[node as usize].clone()),\n        }\n    }\n\n    pub fn get', '            PageNodeID::Node(node) => PageNode::Page(self.pages.page(node)),\n        }\n    }\n\n    pub fn get'),
+    ('pagenode-id-of-page-is-count', 'C07', 'src/page_node.rs', '            PageNode::Page(p) => PageNodeID::Page(p.id),', '            PageNode::Page(p) => PageNodeID::Page(p.count),'),
 ]
 
 
